@@ -61,6 +61,18 @@ CHECKS = {
     "C37": ("iosim", "exploration",
             "Crash/torn-write and corruption simulation for the IVF, Ogg, H.264, H.265 and rtpdump readers and ParseOpusHead/ParseOpusTags: every valid seed file (built with the repository's writers and by hand) is truncated at EVERY offset (complete enumeration, partitioned over the batch), and seeded corruptions (byte flips, length fields overwritten with boundary values, splices, early read errors) are delivered through the seeded chunking reader. Oracle: no panic, every call returns data, an error or end of stream, and the number of successful calls and of Read calls is bounded by the stream length (no hang, no spinning after EOF).",
             "Pure function of the case (exactly replayable). Seeded structural mutation, not coverage-guided fuzzing. Memory use is observed (IVF allocates the declared frame size) but not judged.", "deterministic simulation of torn/corrupted media files and a misbehaving byte source under the real container readers; truncation enumerated completely", "§6 C37"),
+    "C13": ("pcsim", "fault_enumeration",
+            "The complete 48-entry configuration matrix (ICE-lite on each side x answering DTLS role unset/client/server x offer a=setup actpass/active/passive/absent, the offer's setup rewritten by the simulated signaling channel) is enumerated, each configuration running a full connection of two real PeerConnections on the simulated network with a seeded delay. Oracle: the answer's a=setup is active or passive and never claims the role an explicit offer claimed; ICE roles are complementary and follow RFC 8445 6.1.1; the DTLS client observed on the wire (first ClientHello) is the one the exchanged setup values name; both transports connect and report opposite roles.",
+            PC_NOTE + " For lite/lite nobody sends connectivity checks, so only the ICE-role clause is evaluated there. An answerer that rejects an unusual offer with an error is not a violation.", "deterministic simulation of the full connection per enumerated configuration (complete 48-entry matrix), wire-level observation of the DTLS handshake", "§6 C13"),
+    "C14": ("pcsim", "exploration",
+            "Two real PeerConnections (generated or user-supplied ECDSA / RSA-2048 certificates, session- or media-level fingerprints) connect through a signaling channel that acts as man in the middle on a=fingerprint: one hex digit altered, hash relabelled sha-1 / sha-384, fingerprint deleted, moved between levels or lower-cased (value kept). Oracle: the advertised SHA-256 fingerprint equals the digest of the certificate the other side actually received; on a mismatch the victim's DTLS transport is never connected (sampled every 500 ms of fake time for 30 s) and it delivers no data-channel message; value-preserving changes still connect and deliver.",
+            PC_NOTE, TECH_PC + " (signaling channel as man in the middle)", "§6 C14"),
+    "C23": ("pcsim", "exploration",
+            "A real connected pair carries RTP written to a TrackLocalStaticRTP over real SRTP and interceptors: codec in {Opus, VP8, VP9, H264, AV1}, either side offering, further tracks and a data channel in the bundle, random payloads/markers/timestamps/start sequence numbers. Half of the runs use a fault-free FIFO link (every packet must arrive, once, in order), half inject jitter, loss and duplication (received must be a subset of sent, each intact). Oracle: SSRC is the one announced in the sender's SDP, payload type the one the answer lists for the track's codec configuration, payload/sequence/timestamp/marker unchanged, remote track codec/stream id/track id as sent.",
+            PC_NOTE + " Header extensions added by interceptors are not compared.", TECH_PC, "§6 C23"),
+    "C26": ("pcsim", "exploration",
+            "On a real connected pair with RTX negotiated, the simulated sender suppresses selected originals and puts only their RFC 4588 retransmission on the wire (written through the real RTPSender's SRTP stream with the RTX SSRC / payload type, own sequence numbers, OSN prefix), with 0-15 CSRCs, one-byte / two-byte / other extension profiles, 0-255 padding bytes, payloads of 0-1000 bytes, and RTX packets too short for an OSN. Oracle on TrackRemote.ReadRTP: sequence number = OSN, primary SSRC and payload type, payload without the OSN, marker/timestamp/CSRCs/extension/padding unchanged; too-short packets are never delivered; nothing crashes.",
+            PC_NOTE + " Order between primary packets and unwrapped retransmissions is not compared; two trailing originals let the reader drain the repair queue.", TECH_PC + " (loss-and-retransmit element crafting RFC 4588 packets)", "§6 C26"),
 }
 
 SIG_TEXT = {
